@@ -3,6 +3,7 @@
 package rd
 
 import (
+	"bytes"
 	"fmt"
 	"strconv"
 	"strings"
@@ -550,6 +551,72 @@ func ExhaustCase(m *Msg, g, k, rounds int) string {
 		wg.Wait()
 		if succ != int64(k) {
 			return fmt.Sprintf("VIOLATION round %d: %d dereferences succeeded, budget admits exactly %d", round, succ, k)
+		}
+	}
+	return "ok"
+}
+
+// ReuseCase: the traversal budget of a REUSED message.  A Message with TraverseLimit admitting
+// exactly k root dereferences is read until the budget is gone, then Reset to a fresh arena
+// holding the same bytes and read again (again exactly k must succeed: Reset re-arms the
+// CONFIGURED limit, not the default); then the same through Decoder.ReuseBuffer, which resets
+// the one Message it hands out on every Decode.
+func ReuseCase(m *Msg, k int) string {
+	probe := m.Build()
+	root, err := probe.Root()
+	if err != nil {
+		return "ok root-err"
+	}
+	ri := root.VerifInfo()
+	var cost uint64
+	if ri.Valid && ri.Kind == 0 {
+		cost = uint64(ri.DataSize) + 8*uint64(ri.PointerCount)
+	}
+	if cost == 0 {
+		return "ok zero-cost"
+	}
+	count := func(msg *capnp.Message) int {
+		n := 0
+		for j := 0; j < k+3; j++ {
+			if _, err := msg.Root(); err == nil {
+				n++
+			}
+		}
+		return n
+	}
+	mm := *m
+	mm.T = cost * uint64(k)
+	msg := mm.Build()
+	if n := count(msg); n != k {
+		return fmt.Sprintf("VIOLATION fresh message: %d dereferences succeeded, budget admits exactly %d", n, k)
+	}
+	for round := 0; round < 3; round++ {
+		msg.Reset(mm.Build().Arena)
+		if n := count(msg); n != k {
+			return fmt.Sprintf("VIOLATION after Reset #%d: %d dereferences succeeded, budget admits exactly %d", round+1, n, k)
+		}
+	}
+	frame, err := mm.Build().Marshal()
+	if err != nil {
+		return "ok marshal-err"
+	}
+	var stream []byte
+	for i := 0; i < 4; i++ {
+		stream = append(stream, frame...)
+	}
+	d := capnp.NewDecoder(bytes.NewReader(stream))
+	d.ReuseBuffer()
+	for i := 0; i < 4; i++ {
+		dm, err := d.Decode()
+		if err != nil {
+			return fmt.Sprintf("VIOLATION decode %d: %v", i, err)
+		}
+		if i == 0 {
+			dm.TraverseLimit = mm.T // configured by the application on the message it will keep getting
+			continue
+		}
+		if n := count(dm); n != k {
+			return fmt.Sprintf("VIOLATION reused decoder message %d: %d dereferences succeeded, budget admits exactly %d", i, n, k)
 		}
 	}
 	return "ok"
